@@ -439,6 +439,21 @@ func runC09(c *caseWriter) (string, bool, map[string]int) {
 			}
 		}
 	}
+	// first use: every goroutine's very first call reaches a run-time sanitizer (URL normalisation, query escaping,
+	// attribute and text escaping) - with the cold-start round of the child, whatever these build on first use is
+	// built by several goroutines at once
+	{
+		firstUse := [][2]string{{"root", `<a href="{{.}}">r</a>`}, {"a", `<a href="/p?q={{.}}">a</a>`}, {"b", `<img src="/i/{{.}}" alt="{{.}}">`},
+			{"c", `<p title='{{.}}'>{{.}}</p>`}, {"d", `<form action="{{.}}"><input value="{{.}}"></form>`}}
+		for v, data := range []string{"s1", "s2"} {
+			p := c09Program{Seed: int64(5000 + v), Defs: firstUse, Reps: contReps, Tight: true}
+			for g := 0; g < contG; g++ {
+				nm := firstUse[(g+v)%len(firstUse)][0]
+				p.G = append(p.G, [][]string{{"E", nm, "", data}})
+			}
+			progs = append(progs, c09Encode(p))
+		}
+	}
 	n += len(progs)
 	for i := 0; len(progs) < n; i++ {
 		progs = append(progs, c09RandomProgram(i))
